@@ -31,7 +31,8 @@ def step (st : State) (line : String) : State × String :=
     | some b => (st, optHex (Huffman.decode b))
     | none => (st, "bad-op")
   | op :: _ =>
-    if op.startsWith "hpack." then
+    if op.startsWith "pool." then (st, "mon")
+    else if op.startsWith "hpack." then
       let (s, r) := Hpack.Drv.step st.hpack args; ({ st with hpack := s }, r)
     else if op.startsWith "frame." then
       let (s, r) := Frame.Drv.step st.frame args; ({ st with frame := s }, r)
